@@ -18,10 +18,11 @@ def run(tier, seed):
                      "bounds: 5e-6 relative for Br/Bz, 1e-4 relative for profile quantities (spline interpolation error of the 65-point profiles)"]
     res = tlc.run_tlc("MC_Topology", "MC_Topology_quick.cfg", timeout=3600, check=False)
     v.add_tlc(res)
+    # (the GFILE grids are the same equilibria read through tokamak.read_geqdsk, where the file's simagx / sibdry and profile range enter)
     # the option variants (reverse_current, reverse_Bt, psi_divide_twopi: configurations of the C16 pairs) are judged against the profiles
     # of the input arrays too, not only against their partner grid
     from .. import campaign
-    names = list(dict.fromkeys(campaign.campaign(tier) + ["r_revcur", "r_revbt", "r_twopi"]))
+    names = list(dict.fromkeys(campaign.campaign(tier) + ["r_revcur", "r_revbt", "r_twopi"] + campaign.GFILE_GRIDS))
     traces, failed = gridprops.run(v, "C03", tier, names=names)
     clean = [t for t in traces if not any(gridprops.clause_prop(c) == "C03" for c, _ in failed.get(t["id"], ())) and t.get("pairs")]
     if clean:
